@@ -1287,6 +1287,14 @@ def c03_natural_lines(r, toks):
     lines += [
         orb_pkt("recv", 10 ** 6, int_fwd(b32(DUST_BYTES)), ok_fee),                  # blocked internal recipient
         orb_pkt("recv", 10 ** 6, int_fwd(U[1]), [fee_action([(b32(DUST_BYTES), "b", 100)])]),  # fee to a blocked account is a plain SendCoins
+        # the bank's send-enabled switch of a denomination governs user sends (the internal route is one): nothing else of a transfer —
+        # the sweep of what sits on the orbiter account, the fees, the bridge routes — asks it
+        "env sendenabled %s 0" % hx("uusdc"), "deposit %s %s 3" % (hx(ORB_BYTES), hx("uusdc")),
+        orb_pkt("recv", 10 ** 6, cctp_fwd(domain=0), ok_fee), "deposit %s %s 1" % (hx(ORB_BYTES), hx("uusdc")),
+        orb_pkt("recv", 10 ** 6, hyp_fwd(tok, domain=1), ok_fee), "deposit %s %s 1" % (hx(ORB_BYTES), hx("uusdc")),
+        orb_pkt("recv", 10 ** 6, int_fwd(U[1]), ok_fee), orb_pkt("recv", 10 ** 6, cctp_fwd(domain=0), None), orb_pkt("recvh", 10 ** 6, cctp_fwd(domain=0), ok_fee),
+        orb_pkt("recv", 10 ** 6, int_fwd(U[1]), None, denom="uother"),
+        "env sendenabled %s 1" % hx("uusdc"), orb_pkt("recv", 10 ** 6, int_fwd(U[1]), ok_fee),
         "env ftfpause 1", orb_pkt("recv", 10 ** 6, cctp_fwd(domain=0), ok_fee), "env ftfpause 0",
         "env cctppause burn 1", orb_pkt("recv", 10 ** 6, cctp_fwd(domain=0), ok_fee), "env cctppause burn 0",
         "env cctppause send 1", orb_pkt("recv", 10 ** 6, cctp_fwd(domain=0), ok_fee), "env cctppause send 0",
@@ -2852,7 +2860,7 @@ class C18(Base):
 def c13_genesis_doc(r):
     """a ledger as a chain started from a genesis may hold it: several *source* protocols (the same domain number under CCTP
     and Hyperlane), destinations whose ids are prefixes of one another, several denoms per route"""
-    srcs = [(1, "channel-0"), (1, "channel-1"), (2, "1"), (3, "1"), (2, "10"), (3, "10"), (4, "noble")]
+    srcs = [(1, "channel-0"), (1, "channel-1"), (2, "1"), (3, "1"), (2, "10"), (3, "10"), (4, "noble")] + [(1, "channel-%d" % i) for i in range(2, 12)]
     # among the destinations: identifiers that begin with their protocol's own number, or repeat it (2:2, 2:22, 3:31337, 4:4…)
     dsts = [(2, "0"), (2, "1"), (3, "1"), (3, "10"), (3, "100"), (4, "noble"), (4, "nob"), (2, "2"), (2, "21"), (2, "22"), (3, "3"), (3, "31337"), (3, "324"),
             (4, "4"), (4, "44:4")]
@@ -3092,7 +3100,8 @@ class C13(Base):
             f = {"query": ["res", "out", "next", "total"], "export": ["st"], "recv": ["ack", "st"], "msg": ["res", "st"], "genload": ["res", "st"]}
             out.append(Stream("S3-pagination-walks-%d" % h, lines, fields=f, oracle=c13_make_oracle(walks), note="%d walks" % len(walks), shrink=False))
             # the same walks on a chain started from a genesis with several source protocols, then continued by transfers
-            lines, walks = c13_build(r.fork(7), self.n(tier, 12, 40), [2, 3] if tier == "quick" else [1, 2, 3, 7, 50], tier, genesis=True)
+            # (page sizes on both sides of the default of 100, over a ledger with more matching entries than that)
+            lines, walks = c13_build(r.fork(7), self.n(tier, 12, 40), [2, 3, 100, 101, 150, 1000] if tier == "quick" else [1, 2, 3, 7, 50, 99, 100, 101, 103, 150, 1000, 2 ** 63], tier, genesis=True)
             out.append(Stream("S3-pagination-walks-genesis-%d" % h, lines, fields=f, oracle=c13_make_oracle(walks), note="%d walks" % len(walks), shrink=False))
         return out
 
